@@ -282,7 +282,14 @@ class Executor:
     return [(p, self.lift(v))]
 
   def ev_Name(self, e, p, module):
-    return [(p, self.lookup(e.id, p, module))]
+    try:
+      return [(p, self.lookup(e.id, p, module))]
+    except Unsupported as ex_:
+      if 'unbound name' in str(ex_):
+        # a local that no statement on this path has assigned (python: UnboundLocalError / NameError)
+        self.raise_(p, 'UnboundLocalError', 'name %s read before assignment (line %s)' % (e.id, e.lineno))
+        return []
+      raise
 
   def ev_JoinedStr(self, e, p, module):
     return [(p, VOpaque('fstring'))]
